@@ -8,3 +8,12 @@ package model
 func VerifInitAuthenticationPolicies(env *Environment) *AuthenticationPolicies {
 	return initAuthenticationPolicies(env)
 }
+
+// VerifSelectAuthnPolicies runs SidecarScope.selectAuthnPolicies (the per-proxy view of the
+// PeerAuthentication policies used by the client side: EDS mTLS checker, cluster builder) for a
+// sidecar scope in configNamespace that imports the given services.
+func VerifSelectAuthnPolicies(ps *PushContext, configNamespace string, services []*Service) PeerAuthnPolicies {
+	sc := &SidecarScope{services: services}
+	sc.selectAuthnPolicies(ps, configNamespace)
+	return sc.AuthnPolicies
+}
